@@ -1,7 +1,111 @@
 import Driver.Common
-open Drv
+import KatdalModel.Model.ChunkStore
+open Np Drv ChunkStore
 
-/-- stub driver for C07: replaced when the property's model lands -/
-def step (_line : String) : String := "bad-op"
+namespace DrvC07
 
-def main : IO Unit := Drv.loop step
+def optStr (o : Option Int) : String := match o with | none => "_" | some v => toString v
+
+/-- `a:b:c;a:b:c` (`_` = None), `-` = empty tuple -/
+def parseSlcs (s : String) : Option (List Slc) :=
+  if s = "-" then some [] else
+  (s.splitOn ";").mapM fun t =>
+    match t.splitOn ":" with
+    | [a, b, c] => do
+      let a ← parseOptInt a; let b ← parseOptInt b; let c ← parseOptInt c
+      pure (⟨a, b, c⟩ : Slc)
+    | _ => none
+
+/-- `2,2,2;4` per-axis chunk lists, `-` = 0-dim -/
+def parseChunks (s : String) : Option (List (List Nat)) :=
+  if s = "-" then some [] else (s.splitOn ";").mapM parseNatList
+
+def showIntShape (l : List Int) : String := if l.isEmpty then "-" else "x".intercalate (l.map toString)
+
+def showErr (e : CErr) : String := s!"E:{e.name}"
+
+def parseMaxDim (s : String) : Option (List (Nat × Nat)) :=
+  if s = "-" then some [] else
+  (s.splitOn ",").mapM fun t =>
+    match t.splitOn "=" with
+    | [k, v] => do let k ← k.toNat?; let v ← v.toNat?; pure (k, v)
+    | _ => none
+
+/-- `_prune_chunks(chunks, index)` on all axes: pad the index with full slices, reject
+    non-slices / non-unit steps, prune each axis -/
+def pruneAll : List (List Nat) → List Slc → Except CErr (List (Pruned × Bool))
+  | [], [] => .ok []
+  | [], _ :: _ => .error .indexError
+  | ch :: chs, [] => do
+    let r ← pruneAll chs []
+    pure ((pruneAxisIx ch .full, true) :: r)
+  | ch :: chs, s :: ss => do
+    let ix ← normPIx ch.sum s.start s.stop s.step
+    let r ← pruneAll chs ss
+    pure ((pruneAxisIx ch ix, ix == .full) :: r)
+
+def showPruned (p : Pruned × Bool) : String :=
+  let ix := if p.2 then "_:_" else s!"{p.1.start}:{p.1.stop}"
+  s!"{showNatList p.1.chunks}|{ix}|{p.1.offset}"
+
+def showBounds (p : Pruned × Bool) : String :=
+  -- the zero-size placeholder chunk is not a stored chunk
+  let b := chunkBounds p.1.offset p.1.chunks
+  ",".intercalate (b.map fun (lo, hi) => s!"{lo}-{hi}")
+
+/-- requests:
+    name <array> <starts>                          -> chunk name
+    meta <array> <slices> <chunkshape|none> <chunkobj> <dtypeobj> -> `ok <name> <shape>` | E:..
+    prune <chunks> <index>                         -> per axis `chunks|start:stop|offset`
+    bounds <chunks> <index>                        -> per axis kept chunk bounds `lo-hi,..`
+    gen <shape> <itemsize> <maxbytes> <dims> <pow2> <maxdim> -> chunks
+    s3path <chunkname> | npypath <root> <chunkname> | tmppath <root> <chunkname>
+    clip <shape> <slices>                          -> numpy-clipped view shape -/
+def step (line : String) : String :=
+  match line.splitOn " " with
+  | ["name", arr, starts] =>
+    match parseIntList starts with
+    | some st => String.ofList (chunkNameInt arr.toList st)
+    | none => "bad-op"
+  | ["meta", arr, sl, cs, co, dobj] =>
+    match parseSlcs sl, (if cs = "none" then some none else (parseShape cs).map some) with
+    | some sl, some cs =>
+      match chunkMetadata arr.toList sl cs (co = "1") (dobj = "1") with
+      | .ok (nm, shp) => s!"ok {String.ofList nm} {showIntShape shp}"
+      | .error e => showErr e
+    | _, _ => "bad-op"
+  | ["prune", ch, ix] =>
+    match parseChunks ch, parseSlcs ix with
+    | some ch, some ix =>
+      match pruneAll ch ix with
+      | .ok r => if r.isEmpty then "-" else ";".intercalate (r.map showPruned)
+      | .error e => showErr e
+    | _, _ => "bad-op"
+  | ["bounds", ch, ix] =>
+    match parseChunks ch, parseSlcs ix with
+    | some ch, some ix =>
+      match pruneAll ch ix with
+      | .ok r => if r.isEmpty then "-" else ";".intercalate (r.map showBounds)
+      | .error e => showErr e
+    | _, _ => "bad-op"
+  | ["gen", sh, isz, mb, dims, p2, md] =>
+    match parseShape sh, isz.toNat?, mb.toNat?, (if dims = "-" then some [] else parseNatList dims),
+        parseMaxDim md with
+    | some sh, some isz, some mb, some dims, some md =>
+      let r := generateChunks sh isz mb dims (p2 = "1") md
+      if r.isEmpty then "-" else ";".intercalate (r.map showNatList)
+    | _, _, _, _, _ => "bad-op"
+  | ["s3path", nm] => String.ofList (s3Loc nm.toList)
+  | ["s3marker", arr] => String.ofList (s3MarkerLoc arr.toList)
+  | ["npypath", root, nm] => String.ofList (npyLoc root.toList nm.toList)
+  | ["tmppath", root, nm] => String.ofList (npyTmpLoc root.toList nm.toList)
+  | ["npymarker", root, arr] => String.ofList (npyMarkerLoc root.toList arr.toList)
+  | ["clip", sh, sl] =>
+    match parseShape sh, parseSlcs sl with
+    | some sh, some sl => showIntShape (clippedShape sh sl)
+    | _, _ => "bad-op"
+  | _ => "bad-op"
+
+end DrvC07
+
+def main : IO Unit := Drv.loop DrvC07.step
